@@ -340,5 +340,86 @@ def conv_chunk(pid, cfg, m, failure):
     return c16.make_replay(ref, v)
 
 
-CONVERTERS = {'K-read': conv_read, 'K-scan': conv_scan, 'K-whip': conv_whip, 'K-strain': conv_strain, 'K-combine': conv_combine, 'K-pestle-seek': conv_pestle,
+def conv_chefmove(pid, cfg, m, failure):
+    """The model's FABs side by side along x in one file, the five C11 fields, a user recipe with one / two outputs and
+    the model's kept components (when they exist among five fields)."""
+    from harness import c11
+    mm = cfg['m']
+    ext = [list(fab_extents(m, 'f%d' % k, 3)) for k in range(mm)]
+    for e in ext[1:]:
+        e[1], e[2] = ext[0][1], ext[0][2]
+    boxes, dom = boxes_along_x([tuple(e) for e in ext])
+    kept = [m['keep%d' % q] for q in range(cfg['nkeep'])]
+    if any(k >= len(c11.FIELDS) for k in kept) or len(set(kept)) != len(kept):
+        return None
+    keptnames = ' '.join(c11.FIELDS[k] for k in kept) or None
+    ref = Ref('k', 3, c11.FIELDS, dom, [boxes], layout=[[(0, k) for k in range(mm)]])
+    if cfg['two']:
+        c = ('user-multi+kept' if keptnames else 'user-multi', os.path.join(c11.RECIPES, 'r_multi.py'), {}, keptnames, ['twice_a_plus_rho', 'a_times_rho'])
+    else:
+        c = ('user-single+kept' if keptnames else 'user-single', os.path.join(c11.RECIPES, 'r_single.py'), {}, keptnames, ['a_plus_2rho'])
+    v = {'signature': '%s/K-chefmove' % pid, 'what': failure['what'], 'cfg': c, 'serial': True, 'model': None}
+    return c11.make_replay(ref, v)
+
+
+def _place_pair(which, ext, lo0):
+    """Two boxes side by side along x, listed in file order; the failing one (index `which`) starts at x = lo0 when the
+    model says so (the other box then fills [0, lo0)), else at 0 with the other box after it."""
+    nd = len(ext[0])
+    fail, other = list(ext[which]), list(ext[1 - which])
+    for d in range(1, nd):
+        other[d] = fail[d]
+    if lo0 >= 1:
+        other[0] = lo0
+        pos = {which: lo0, 1 - which: 0}
+    else:
+        pos = {which: 0, 1 - which: fail[0]}
+    e = {which: fail, 1 - which: other}
+    boxes = []
+    for k in range(2):
+        lo = (pos[k],) + (0,) * (nd - 1)
+        boxes.append((lo, tuple(l + n - 1 for l, n in zip(lo, e[k]))))
+    dom = (fail[0] + other[0],) + tuple(fail[1:])
+    return boxes, dom
+
+
+def conv_slicebox(pid, cfg, m, failure):
+    """One level, the model's two FABs side by side along x in one file (the other FAB takes the failing one's extents on
+    y and z, so the level tiles its domain; the failing FAB keeps the model's x start), sliced with the lemma's normal at
+    a position of the lemma's case."""
+    from harness import c07, c08
+    which = cfg['which']
+    if cfg.get('factor', 1) != 1:
+        return None
+    if cfg.get('plate'):
+        boxes, dom = _place_pair(which, [fab_extents(m, 'f%d' % k, 2) for k in range(2)], m.get('f%d_lo0' % which, 0))
+        if dom[0] < 3:
+            return None
+        names = _names(m['f0_nf'])
+        fields = [names[m['fid0']]] + ([names[m['fid1']]] if m['fid1'] != m['fid0'] else [])
+        ref = Ref('k', 2, names, dom, [boxes], layout=[[(0, 0), (0, 1)]])
+        return c08.make_replay(ref, {'signature': '%s/K-slicebox/plate' % pid, 'what': failure['what'], 'args': [fields, None, True]})
+    cn, nn, case = cfg['cn'], cfg['nn'], cfg['case']
+    boxes, dom = _place_pair(which, [fab_extents(m, 'f%d' % k, 3) for k in range(2)], m.get('f%d_lo0' % which, 0))
+    names = _names(m['f0_nf'])
+    fields = [names[m['fid0']]]
+    if cfg['nfid'] == 2 and m.get('fid1', m['fid0']) != m['fid0']:
+        fields = [names[m['fid0']], 'grid_level', names[m['fid1']]]
+    lo, dx0 = [0.0, 0.0, 0.0], [0.25, 0.5, 0.125]
+    x0 = boxes[which][0][cn]
+    d = dx0[cn]
+    if case == 'below':
+        pos = lo[cn] + d * (x0 + 0.25)
+    elif case == 'above':
+        pos = lo[cn] + d * (x0 + nn - 0.25)
+    elif case.startswith('on'):
+        pos = lo[cn] + d * (x0 + int(case[2:]) + 0.5)
+    else:
+        pos = lo[cn] + d * (x0 + int(case[7:]) + 0.75)
+    ref = Ref('k', 3, names, dom, [boxes], layout=[[(0, 0), (0, 1)]], lo=lo, dx0=dx0)
+    v = {'signature': '%s/K-slicebox/n%d/%s' % (pid, cn, case), 'what': failure['what'], 'args': [fields, None, True, cn], 'pos': pos, 'model': None}
+    return c07.make_replay(ref, v, pid=pid)
+
+
+CONVERTERS = {'K-slicebox': conv_slicebox, 'K-chefmove': conv_chefmove, 'K-read': conv_read, 'K-scan': conv_scan, 'K-whip': conv_whip, 'K-strain': conv_strain, 'K-combine': conv_combine, 'K-pestle-seek': conv_pestle,
               'K-taste-good': conv_taste_good, 'K-taste-bad': conv_taste_bad, 'K-ghost': conv_ghost, 'K-expand': conv_expand, 'K-chunk': conv_chunk}
